@@ -101,6 +101,13 @@ func (p *Prog) attrLiterals(reach map[*ssa.Function]bool) []*attrLit {
 func runC04(c *Ctx) {
 	p := c.P
 	const P = "C04"
+	// the node behind a handle remembers the object's type: a re-created name must get the new node (borrowed from C05)
+	{
+		saved := c.Only
+		c.Only = map[string]bool{"hit-rebinds": true}
+		runC05Atomic(c, P)
+		c.Only = saved
+	}
 	c.rule(P, "complete", "sink-reaching NFSAttrs literal has Mode, Size, FileId; Mode/Size from one FileInfo or copied from the same field", 4)
 	c.rule(P, "lstat", "the FileInfo feeding an attribute record is an Lstat result", 2)
 	c.rule(P, "fileid", "FileId = fnv64a(path) of the path that was stat'ed", 2)
